@@ -17,6 +17,10 @@ ENCODINGS = {
     "str2": ["yes", "no", ""],
     "bool": [False, True, None],
     "npint": "npint",
+    # labels that collide when truncated / cast to a narrower type seen earlier in the stream
+    "prefix": ["c1", "c10", "c11"],
+    "frac": [0.25, 0.75, 0.5],
+    "wide": ["x", "xy", "xyz"],
 }
 WRAPS = ["scalar", "list", "a0", "a1", "a2", "series"]
 
@@ -54,6 +58,7 @@ def check_relabel(case, ctx):
     p = case["params"]
     pairs = case["pairs"]  # classes in {0,1,2}
     enc = case["enc"]
+    encs = case.get("encs") or [enc] * len(pairs)  # per-sample label map (each one injective)
     with sut(detector=name):
         canon = spec.make(p)
         var = spec.make(p)
@@ -66,8 +71,11 @@ def check_relabel(case, ctx):
             vt, vp = ((yt + 1) % 3, (yp + 1) % 3)
         elif sub == 2:
             vt, vp = (yp, yt)
-        a = wrap(encode(vt, enc), case["wraps"][i][0])
-        b = wrap(encode(vp, enc), case["wraps"][i][1])
+        enc_i = encs[i]
+        if enc_i == "bool" and max(vt, vp) > 1:
+            enc_i = "int"
+        a = wrap(encode(vt, enc_i), case["wraps"][i][0])
+        b = wrap(encode(vp, enc_i), case["wraps"][i][1])
         with sut(detector=name):
             canon.update(1, 1 if agree else 0)
         with sut(detector=name, variant=enc):
@@ -85,11 +93,13 @@ def check_relabel(case, ctx):
         nwarn += oc["state"] == "warning"
     used = {c for pr in pairs for c in pr}
     ctx.label(name, "enc=" + enc)
+    if len(set(encs)) > 1:
+        ctx.label("encoding-changes-along-stream")
     if len(used) >= 3:
         ctx.label("3-classes")
     if ndrift and nwarn:
         ctx.label("warn+drift")
-    if (len(used) >= 3 or enc in ("str", "str2", "bool")) and ndrift and (nwarn or name == "ADWINAccuracy"):
+    if (len(used) >= 3 or enc in ("str", "str2", "bool", "prefix", "wide")) and ndrift and (nwarn or name == "ADWINAccuracy"):
         ctx.label("nontrivial")
 
 
@@ -113,7 +123,18 @@ def strat_relabel(tier):
         subst = [draw(st.sampled_from([0, 0, 0, 1, 2])) for _ in range(n)]
         if enc == "bool":
             subst = [0 if s_ == 1 else s_ for s_ in subst]
-        return {"det": name, "params": p, "pairs": pairs, "enc": enc, "wraps": wraps, "subst": subst}
+        out = {"det": name, "params": p, "pairs": pairs, "enc": enc, "wraps": wraps, "subst": subst}
+        if draw(st.booleans()):
+            # the label map itself changes along the stream (every map is injective, agreement is preserved)
+            others = [e for e in ENCODINGS if e != "bool" or not three]
+            encs = []
+            cur = enc
+            for _ in range(n):
+                if draw(st.integers(0, 5)) == 0:
+                    cur = draw(st.sampled_from(others))
+                encs.append(cur)
+            out["encs"] = encs
+        return out
 
     return s()
 
